@@ -160,8 +160,8 @@ inline Val extract(JsonVariantConst v, const WalkOpts& o, size_t& budget, int de
     const char* p = v.as<const char*>();
     if (p != s.c_str())
       walkFail(o, "walk: as<const char*> != as<JsonString>().c_str()");
-    if (p[s.size()] != 0)
-      walkFail(o, "walk: string not NUL-terminated at size()");
+    if (p[s.size()] != 0)  // as<const char*>() and as<JsonString>() then denote different strings
+      violate("C14:unterminated-string", "walk: string not NUL-terminated at size()");
     std::string bytes(s.c_str(), s.size());
     if (v.as<std::string>() != bytes)
       walkFail(o, "walk: as<std::string> differs");
@@ -227,7 +227,7 @@ inline Val extract(JsonVariantConst v, const WalkOpts& o, size_t& budget, int de
     if (k.isNull())
       walkFail({"C05:member-without-key", o.lookups, o.maxNodes}, "walk: object member without a key");
     if (k.c_str()[k.size()] != 0)
-      walkFail(o, "walk: key not NUL-terminated at size()");
+      violate("C14:unterminated-string", "walk: key not NUL-terminated at size()");
     r.o.emplace_back(std::string(k.c_str(), k.size()), extract(kv.value(), o, budget, depth + 1));
     r.klinked.push_back(k.isLinked());
     n++;
